@@ -309,7 +309,7 @@ PROPS = {
         "claim": "Capsule path and close-code conversion: a DATA payload is a CLOSE_WEBTRANSPORT_SESSION capsule iff type 0x2843 with a complete length and value (any length, Verus unit capsule; every payload <= 16, Kani); the close is accepted IFF 4 <= len <= 1028 and the reason is UTF-8, carries exactly the big-endian 32-bit code (all 2^32) and the reason bytes; every malformed capsule is H3_DATAGRAM_ERROR; a QUIC application close reaches the application with the same 62-bit code and reason, other causes never become an application close; the leaf future's ImmediateFin/UnexpectedFin distinction (clean finish vs abrupt end) is exact under every Pending pattern. Driver (Verus unit driver_streams, every sequence of read results on the session stream): ConnectStream::run skips non-DATA frames and unknown capsules, turns a CLOSE_WEBTRANSPORT_SESSION capsule into ApplicationClosed with exactly the peer's code and reason bytes (and resets the stream with H3_NO_ERROR), a clean FIN into ApplicationClosed(0, empty), and an abrupt end, reset or malformed capsule into a protocol error - never an application close. The chain to the application is closed by units driver (Worker::run: the ending error becomes the driver result, and the CONNECTION_CLOSE code on the wire is H3_NO_ERROR after a peer close / the registry code of a protocol error; Driver::accept_* / receive_datagram fail only with that driver result) and connection (Connection::accept_uni / accept_bi / open_* / receive_datagram turn DriverError::ApplicationClosed(a) into ConnectionError::ApplicationClosed(a) with the same code and reason, a protocol error into that LocalH3Error, and only 'not connected' into the QUIC-level cause).",
         "note": "Not decided: ConnectStream::run (clean FIN => (0, ''), reset => protocol failure), Worker::run, From<quinn::ConnectionError> (async / need a quinn::Connection). UTF-8 validation trusted (core::str::from_utf8) beyond 4-byte reasons.",
         "kani": CAPSULE_KANI + DRIVER_CLOSE + [ASYNC_LEAF_KANI[1]],
-        "verus": [V("capsule", pair=("proto", "p_capsule_with_frame")), V("driver_streams"), V("connection")],
+        "verus": [V("capsule", pair=("proto", "p_capsule_with_frame")), V("driver_streams"), V("connection"), V("driver")],
         "not_decided": ["ConnectStream::run", "ApplicationClose from quinn::ConnectionError"],
     },
     "C05": {
